@@ -10,8 +10,8 @@ grouping, so its blind spots are described by where a construct sits in the text
 
 sqlfluff dialects (class ↦ dialect in `harness/c09.py: CLASS_ANALYZERS`):
   K1  an `IN (subquery)` occurs anywhere                 clickhouse parses it as `tuple(bracketed(expression(select)))`
-  K2  the statement is CREATE VIEW                        exasol names the target `view_reference`
-  K3  the statement is CREATE TABLE … AS                  impala names it `create_table_as_select_statement`
+  (K2 — CREATE VIEW under exasol, target `view_reference` — and K3 — CREATE TABLE … AS under impala,
+   `create_table_as_select_statement` — were repaired in the code and are no classes any more)
   K4  a select item `… CASE … END alias` without AS       oracle reads the alias as part of the CASE expression
 
 legacy (`dialect="non-validating"`) analyzer:
@@ -182,8 +182,8 @@ end
 def classes : Stmt → List String
   | .query q br => (clsQ (!br) q).eraseDups
   | .insert _ _ _ _ q br => ((if br then ["L6"] else []) ++ clsQ false q).eraseDups
-  | .ctas _ _ ine q _ => (["K3"] ++ (if ine then ["L4"] else []) ++ clsQ false q).eraseDups
-  | .createView _ _ _ q => (["K2"] ++ clsQ false q).eraseDups
+  | .ctas _ _ ine q _ => ((if ine then ["L4"] else []) ++ clsQ false q).eraseDups
+  | .createView _ _ _ q => (clsQ false q).eraseDups
   | _ => []
 
 end SqlLineage.Spec.Agreement
